@@ -298,6 +298,9 @@ namespace pika::threads::detail {
             bool enable_stealing_staged =
                 enable_stealing && idle_loop_count > params.max_idle_loop_count_ / 2;
 
+#if defined(PIKA_VERIF_HOOKS)
+            bool const verif_from_next = static_cast<bool>(thrd);
+#endif
             if (PIKA_LIKELY(thrd ||
                     scheduler.SchedulingPolicy::get_next_thread(
                         num_thread, running, thrd, enable_stealing)))
@@ -314,6 +317,7 @@ namespace pika::threads::detail {
                 // Any non-pending pika threads are leftovers from a set_state()
                 // call for a previously pending pika thread (see comments above).
                 thread_state state = get_thread_id_data(thrd)->get_state();
+                PIKA_VERIF_POST("loop.got", get_thread_id_data(thrd), (static_cast<std::uint64_t>(static_cast<std::uint8_t>(state.state())) << 56) | (static_cast<std::uint64_t>(static_cast<std::uint8_t>(state.state_ex())) << 48) | static_cast<std::uint64_t>(state.tag()), verif_from_next ? 1 : 0);
                 thread_schedule_state state_val = state.state();
 
                 if (PIKA_LIKELY(thread_schedule_state::pending == state_val))
@@ -380,7 +384,9 @@ namespace pika::threads::detail {
 #  endif
 # endif
 
+                                PIKA_VERIF_POST("phase.begin", thrdptr, num_thread, 0);
                                 thrd_stat = (*thrdptr)(context_storage);
+                                PIKA_VERIF_POST("phase.end", thrdptr, num_thread, static_cast<int>(thrd_stat.get_previous()));
 #endif
                             }
 
